@@ -571,9 +571,11 @@ where
                 );
             }
 
-            let permitted = {
+            let (permitted, mut trial) = {
                 let mut circuit = circuit.lock().await;
-                circuit.try_acquire(&config)
+                let permitted = circuit.try_acquire(&config);
+                let trial = if permitted { circuit.trial_guard() } else { None };
+                (permitted, trial)
             };
 
             #[cfg(feature = "tracing")]
@@ -603,6 +605,9 @@ where
             let duration = start.elapsed();
 
             let mut circuit = circuit.lock().await;
+            if let Some(trial) = trial.as_mut() {
+                trial.recorded();
+            }
             if config.failure_classifier.classify(&result) {
                 circuit.record_failure(&config, duration);
             } else {
@@ -738,9 +743,11 @@ where
                 );
             }
 
-            let permitted = {
+            let (permitted, mut trial) = {
                 let mut circuit = circuit.lock().await;
-                circuit.try_acquire(&config)
+                let permitted = circuit.try_acquire(&config);
+                let trial = if permitted { circuit.trial_guard() } else { None };
+                (permitted, trial)
             };
 
             #[cfg(feature = "tracing")]
@@ -776,6 +783,9 @@ where
             let duration = start.elapsed();
 
             let mut circuit = circuit.lock().await;
+            if let Some(trial) = trial.as_mut() {
+                trial.recorded();
+            }
             if config.failure_classifier.classify(&result) {
                 circuit.record_failure(&config, duration);
             } else {
